@@ -2131,9 +2131,10 @@ func (f *File) ReadFrom(r io.Reader) (int64, error) {
 			f.offset += int64(m)
 
 			// A failed write must not be masked by the reader having hit EOF
-			// on the same (last, short) chunk.
+			// on the same (last, short) chunk, nor (when the server refuses it
+			// with an EOF status) be taken for the end of the reader.
 			if err2 != nil && (err == nil || errors.Is(err, io.EOF) || errors.Is(err, io.ErrUnexpectedEOF)) {
-				err = err2
+				return read, err2
 			}
 		}
 
